@@ -137,7 +137,7 @@ func cmdUnit(eng *Engine, pats []string) {
 	defer os.RemoveAll(tmp)
 	cfg := &SolverCfg{TimeoutS: 10, TmpDir: tmp}
 	var units []*Unit
-	for _, u := range eng.allUnits() {
+	for _, u := range append(eng.allUnits(), eng.symUnits()...) {
 		for _, p := range pats {
 			if matchUnit(u.Name, p) {
 				units = append(units, u)
@@ -153,7 +153,11 @@ func cmdUnit(eng *Engine, pats []string) {
 		go func(u *Unit) {
 			defer wg.Done()
 			defer func() { <-sem }()
-			eng.translate(u)
+			if u.Sym != nil {
+				eng.translateSym(u)
+			} else {
+				eng.translate(u)
+			}
 			if u.Unsupp == "" && u.SpecFail == "" {
 				solveUnit(u, cfg, nil)
 			}
